@@ -255,6 +255,16 @@ def product_cases(family):
                     for kw in (1, 3):
                         for pad in ("SAME", "VALID"):
                             out.append(dict(family="tconv", sw=sw, sh=sh, ih=ih, iw=4, kh=kh, kw=kw, pad=pad))
+    elif family == "eltwise":
+        # data-type sentences of the binary element-wise operators, decided together: generic ("If a fused activation function is present, the Output tensor must be one of type:
+        # int16, int8, uint8") and specific ("Both Input data types must match", "For IFM that are signed, OFM must also be signed", "For IFM that are unsigned, OFM must either be
+        # the same type or int32")
+        for code in ("ADD", "SUB", "MUL"):
+            for a in ELT_TYPES:
+                for b in ELT_TYPES:
+                    for o in ELT_TYPES:
+                        for faf in (0, 1):
+                            out.append(dict(family="eltwise", code=code, a=a, b=b, o=o, faf=faf))
     elif family == "resize":
         for code in ("RESIZE_BILINEAR", "RESIZE_NEAREST_NEIGHBOR"):
             for (ih, iw) in ((1, 1), (2, 2), (2, 3), (3, 3), (4, 2)):
@@ -269,8 +279,23 @@ def product_cases(family):
     return out
 
 
+ELT_TYPES = ("int8", "uint8", "int16", "int32")
+ELT_SENT = ["If a fused activation function is present, the Output tensor must be one of type: int16, int8, uint8", "Both Input data types must match",
+            "For IFM that are signed, OFM must also be signed", "For IFM that are unsigned, OFM must either be the same type or int32"]
+
+
 def product_spec(p, c):
     """-> (spec, expected placement, the sentences that decide it)"""
+    if p["family"] == "eltwise":
+        def q(dt):
+            return (0.05, 128) if dt == "uint8" else (0.05, 0)
+        ts = [T("a", [1, 4, 4, c], p["a"], *q(p["a"])), T("b", [1, 4, 4, c], p["b"], *q(p["b"])), T("output", [1, 4, 4, c], p["o"], 0.1, 128 if p["o"] == "uint8" else 0)]
+        table = {"ADD": "AddOptions", "SUB": "SubOptions", "MUL": "MulOptions"}[p["code"]]
+        spec = dict(tensors=ts, ops=[dict(code=p["code"], inputs=[0, 1], outputs=[2], opts=dict(table=table, fields=dict(FusedActivationFunction=p["faf"])), version=2)], inputs=[0, 1], outputs=[2])
+        signed = lambda dt: dt != "uint8"
+        ok = p["a"] == p["b"] and (not p["faf"] or p["o"] in ("int16", "int8", "uint8"))
+        ok = ok and (not signed(p["a"]) or signed(p["o"])) and (signed(p["a"]) or p["o"] in (p["a"], "int32"))
+        return spec, ok, "eltwise"
     if p["family"] == "tconv":
         sw, sh, ih, iw, kh, kw, pad = p["sw"], p["sh"], p["ih"], p["iw"], p["kh"], p["kw"], p["pad"]
         if pad == "SAME":
@@ -421,7 +446,7 @@ def oracle_publication(case, rec=None):
         diff = [l for l in difflib.unified_diff(com, gen, "SUPPORTED_OPS.md (committed)", "generated", lineterm="", n=0)][:14]
         raise Violation("C16/report/stale", "the committed SUPPORTED_OPS.md differs from the report the compiler generates: %s" % " | ".join(diff), case)
     text = "\n".join(gen)
-    for k, s in SENT.items():
+    for k, s in list(SENT.items()) + [("eltwise", e) for e in ELT_SENT]:
         if s not in text:
             raise Violation("C16/report/sentence-missing", "the report no longer contains the sentence the enforcement table keys on: %r" % s, case)
     if rec is not None:
@@ -432,6 +457,7 @@ def oracle_publication(case, rec=None):
 def parts(ctx):
     q = ctx.quick
     prods = [Part("product-tconv%02d" % i, products, ("tconv", i, 4, 0)) for i in range(4)] + [Part("product-resize%02d" % i, products, ("resize", i, 6, 180 if q else 0)) for i in range(6)]
+    prods += [Part("product-eltwise%02d" % i, products, ("eltwise", i, 4, 128 if q else 0)) for i in range(4)]
     return prods + [Part("grid%02d" % i, grid, (i, 12)) for i in range(12)] + [Part("place%02d" % i, placements, (i, 6 if q else 400)) for i in range(3 if q else 15)] + [Part("publication", publication, None)]
 
 
